@@ -190,6 +190,12 @@ fn run_rep<const P: u128>(rep: &Rep, n: usize, fstep: usize, pname: &str) -> Rep
                     rsdd::verif::set_table_capacity(0);
                     let p = b.compile_cnf_topdown(&to_cnf(&cl));
                     if bdd_tt(p, n) == f {
+                        // every second function: the builder's own statistics queries run first
+                        // (they hash every node of the table in the builder's 32-bit field)
+                        if (f / (fstep as u64 * 3)) % 2 == 1 {
+                            let _ = guarded(|| (b.num_logically_redundant(), b.stats().num_nodes_alloc));
+                            r.evaluations += 1;
+                        }
                         r.transitions += 1;
                         r.evaluations += 4;
                         for e in [
